@@ -21,14 +21,25 @@ from ..evidence import Result
 from ..vloop import HarnessError, VLoop
 
 CHUNK_TYPES = ("bytes", "bytearray", "memoryview", "memoryview-H", "memoryview-strided", "array-H")
+# chunk kinds whose storage the caller owns and reuses: after data_received() returns the harness overwrites it
+REUSED_TYPES = ("bytearray-reused", "memoryview-reused")
+
+
+def scribble(chunk: Any) -> None:
+    """What a caller does that recycles its receive buffer: overwrite the storage it handed in."""
+    obj = chunk.obj if isinstance(chunk, memoryview) else chunk
+    if isinstance(obj, bytearray):
+        obj[:] = b"\xee" * len(obj)
 
 
 def conv(b: bytes, kind: str) -> Any:
     """The same bytes presented as different bytes-like objects (len() need not be the byte count)."""
     if kind == "bytes":
         return b
-    if kind == "bytearray":
+    if kind in ("bytearray", "bytearray-reused"):
         return bytearray(b)
+    if kind == "memoryview-reused":
+        return memoryview(bytearray(b))
     if kind == "memoryview-H" and len(b) % 2 == 0 and b:
         return memoryview(bytes(b)).cast("H")  # itemsize 2: len() is half the byte count
     if kind == "array-H" and len(b) % 2 == 0 and b:
@@ -141,10 +152,16 @@ def feed_segments(stream: bytes, cuts: tuple[int, ...], kinds: tuple[str, ...]) 
     bounds = list(cuts) + [len(stream)]
     for i, q in enumerate(bounds):
         before = len(rec.got)
+        kind = kinds[i % len(kinds)]
+        chunk = conv(stream[pos:q], kind)
         try:
-            h.data_received(conv(stream[pos:q], kinds[i % len(kinds)]))
+            h.data_received(chunk)
         except Exception as e:  # noqa: BLE001
-            return f"exception {type(e).__name__}: {e} at chunk [{pos}:{q}]"
+            return f"exception {type(e).__name__}: {e} at chunk [{pos}:{q}] ({kind})"
+        if kind in REUSED_TYPES:
+            # payloads already delivered are compared before the caller's buffer is recycled; retained bytes must survive it
+            got = norm_got(rec.got[before:])
+            scribble(chunk)
         got = norm_got(rec.got[before:])
         exp = expected_between(ends, pos, q)
         if got != exp:
@@ -200,19 +217,28 @@ def check_stream(args: tuple[bytes, str, int, int]) -> dict[str, Any]:
         return out
 
     # 0. whole stream in one call, each chunk type
-    for kind in CHUNK_TYPES:
+    for kind in CHUNK_TYPES + REUSED_TYPES:
         out["evals"] += 1
         v = feed_segments(stream, (), (kind,))
         if v:
             return fail(v, cuts=[], kinds=[kind])
+    # 0b. every single cut from the cut set with the caller recycling its (mutable) buffer after each call
+    for kind in REUSED_TYPES:
+        for c in cut_set(stream):
+            out["evals"] += 1
+            v = feed_segments(stream, (c,), (kind,))
+            if v:
+                return fail(v, cuts=[c], kinds=[kind])
     # 1. all segmentations of short streams
     if n <= all_seg_max:
         for mask in range(1 << (n - 1)):
             cuts = tuple(i + 1 for i in range(n - 1) if mask >> i & 1)
             out["evals"] += 1
-            v = feed_segments(stream, cuts, CHUNK_TYPES[mask % 6 :] + CHUNK_TYPES[: mask % 6])
+            allk = CHUNK_TYPES + REUSED_TYPES
+            rot = allk[mask % len(allk):] + allk[: mask % len(allk)]
+            v = feed_segments(stream, cuts, rot)
             if v:
-                return fail(v, cuts=list(cuts), kinds=list(CHUNK_TYPES[mask % 6 :] + CHUNK_TYPES[: mask % 6]))
+                return fail(v, cuts=list(cuts), kinds=list(rot))
     cs = cut_set(stream)
     # 2. all segmentations with <= max_cuts cuts from the cut set (direct, no induction)
     for k in range(1, max_cuts + 1):
@@ -225,7 +251,7 @@ def check_stream(args: tuple[bytes, str, int, int]) -> dict[str, Any]:
             continue
         for cuts in itertools.combinations(sub, k):
             out["evals"] += 1
-            kk = ("memoryview", "memoryview-H", "bytes", "array-H", "bytearray", "memoryview-strided")
+            kk = ("memoryview", "memoryview-H", "bytes", "array-H", "bytearray-reused", "memoryview-strided", "bytearray", "memoryview-reused")
             v = feed_segments(stream, cuts, kk)
             if v:
                 return fail(v, cuts=list(cuts), kinds=list(kk))
@@ -235,7 +261,10 @@ def check_stream(args: tuple[bytes, str, int, int]) -> dict[str, Any]:
     for q in points:
         h, rec = new_helper()
         if q:
-            h.data_received(stream[:q])
+            try:
+                h.data_received(stream[:q])
+            except Exception as e:  # noqa: BLE001
+                return fail(f"exception {type(e).__name__}: {e} feeding the first {q} bytes in one call", cuts=[q])
         canon[q] = (norm_state(helper_state(h)), norm_got(rec.got))
         exp = expected_between(ends, -1, q)
         if canon[q][1] != exp:
@@ -246,7 +275,10 @@ def check_stream(args: tuple[bytes, str, int, int]) -> dict[str, Any]:
             for kind in CHUNK_TYPES:
                 h, rec = new_helper()
                 if p:
-                    h.data_received(stream[:p])
+                    try:
+                        h.data_received(stream[:p])
+                    except Exception as e:  # noqa: BLE001
+                        return fail(f"exception {type(e).__name__}: {e} feeding the first {p} bytes", cuts=[p])
                 before = len(rec.got)
                 try:
                     h.data_received(conv(stream[p:q], kind))
@@ -264,16 +296,20 @@ def check_stream(args: tuple[bytes, str, int, int]) -> dict[str, Any]:
                     rest = stream[q:]
                     for mode in ("whole", "bytewise"):
                         h1, r1 = new_helper()
-                        h1.data_received(stream[:p]) if p else None
-                        h1.data_received(conv(stream[p:q], kind))
                         h2, r2 = new_helper()
-                        h2.data_received(stream[:q]) if q else None
-                        b1, b2 = len(r1.got), len(r2.got)
-                        pieces = [rest] if mode == "whole" else [rest[j : j + 1] for j in range(len(rest))]
-                        for pc in pieces:
-                            if pc:
-                                h1.data_received(pc)
-                                h2.data_received(pc)
+                        try:
+                            h1.data_received(stream[:p]) if p else None
+                            h1.data_received(conv(stream[p:q], kind))
+                            h2.data_received(stream[:q]) if q else None
+                            b1, b2 = len(r1.got), len(r2.got)
+                            pieces = [rest] if mode == "whole" else [rest[j : j + 1] for j in range(len(rest))]
+                            for pc in pieces:
+                                if pc:
+                                    h1.data_received(pc)
+                                    h2.data_received(pc)
+                        except Exception as e:  # noqa: BLE001
+                            return fail(f"exception {type(e).__name__}: {e} after step {p}->{q} ({kind}) while feeding the rest ({mode})",
+                                        cuts=[p, q], kinds=["bytes", kind])
                         if norm_got(r1.got[b1:]) != norm_got(r2.got[b2:]):
                             return fail(
                                 f"state after {p}->{q} ({kind}) differs from the one-call state and behaves differently ({mode})",
